@@ -4,7 +4,7 @@ from props import tpl, vmodel
 from props.tpl import lit, var, I, Sx, request, observed, prepare_floats
 
 PROP = "C06"
-TARGETS = ["props/C06.vo", "corr/Rendercorr.vo"]
+TARGETS = ["props/C06.vo", "corr/Rendercorr.vo", "corr/Condcorr.vo"]
 HEADER = "From LV Require Import Corr Eval Rendercorr.\n"
 CHECKER = "render_check"
 MODEL_HANDLES_PANIC = True
@@ -13,7 +13,9 @@ TRUSTED = [
     "templates reach the model as the tree the parser builds (tools/props/tpl.py prints the tree as source and as a model term): the precedence of `and`/`or` in parse_condition is inside the loop being compared",
 ]
 RULE = ("every operator x every ordered pair of the value pool, as literals and through variables; if/elsif chains of 1..4 arms and case/when with 1..4 arms (comma and `or` lists, duplicate arms) under all truth assignments; "
-        "and/or chains up to 4 and the `or ... and` shapes; each branch prints a distinct marker; non-trivial = some condition or arm is taken")
+        "and/or chains up to 4 and the `or ... and` shapes; each branch prints a distinct marker; non-trivial = some condition or arm is taken; "
+        "the condition parser: every token sequence of length <= 2 (a quarter of length 3 in quick) over 20 tokens (names, literals, `and`/`or`/`contains` which are also names, operators, junk), sampled sequences of length 4-5, "
+        "well-formed or-of-ands with 1..4 groups of 1..3 atoms, each under 8 truth assignments (and with `and`/`or`/`contains` defined as variables)")
 
 F = lambda x: ["f", str(__import__("struct").unpack("<Q", __import__("struct").pack("<d", x))[0])]
 LITS = [["n"], ["b", True], ["b", False], ["i", "0"], ["i", "1"], ["i", "-1"], ["i", "2"], F(1.0), F(2.5), ["s", ""], ["s", " "], ["s", "1"],
@@ -157,3 +159,152 @@ def spec_check(c, resp):
 
 def nontrivial(c, resp):
     return observed(resp)[1] not in ("F", "", None)
+
+
+# ---------------------------------------------------------------- the condition parser (parse_condition)
+import types, json
+from lv import C, R, P, S, Nv, obj_ir
+# token text -> (value expression or None, how it reads)
+CTOK = {"a": (var("a"), "TPlain"), "b": (var("b"), "TPlain"), "c": (var("c"), "TPlain"), "true": (lit(["b", True]), "TPlain"), "false": (lit(["b", False]), "TPlain"),
+        "nil": (lit(["n"]), "TPlain"), "1": (lit(["i", "1"]), "TPlain"), "'a'": (lit(["s", "a"]), "TPlain"), "a.b": (var("a", lit(["s", "b"])), "TPlain"),
+        "and": (var("and"), "TAnd"), "or": (var("or"), "TOr"), "contains": (var("contains"), ("TOp", "OpContains")),
+        "==": (None, ("TOp", "OpEq")), "!=": (None, ("TOp", "OpNe")), "<>": (None, ("TOp", "OpNe")), "<": (None, ("TOp", "OpLt")), ">=": (None, ("TOp", "OpGe")),
+        ",": (None, "TPlain"), "=": (None, "TPlain"), "(1..2)": (None, "TPlain")}
+CORE_T = ["a", "b", "c", "true", "nil", "and", "or", "==", "contains", ","]
+
+
+def ctok_ir(t):
+    v, cls = CTOK[t]
+    cl = C(cls) if isinstance(cls, str) else C(cls[0], C(cls[1]))
+    return R("mkT", None if v is None else ("some", tpl.expr_ir(v)), cl)
+
+
+def q_gen(tier, seed):
+    rnd = random.Random(seed * 13 + 5)
+    seqs = {}
+    for n in (1, 2, 3):
+        for combo in itertools.product(list(CTOK), repeat=n):
+            if n == 3 and tier == "quick" and rnd.random() > 0.25:
+                continue
+            seqs.setdefault(combo, "exhaustive token sequences (length %d)" % n)
+    for n in (4, 5):
+        for combo in itertools.product(CORE_T, repeat=n):
+            if rnd.random() < (0.03 if tier == "quick" else 0.4) / (1 if n == 4 else 6):
+                seqs.setdefault(combo, "token sequences over the core alphabet (length %d)" % n)
+    # well-formed: groups of atoms, with and / or at value positions as well
+    atoms = [["a"], ["b"], ["c"], ["true"], ["nil"], ["a", "==", "b"], ["b", "!=", "c"], ["'a'", "contains", "'a'"], ["and"], ["or"], ["contains"], ["1", "<", "a"]]
+    for _ in range(400 if tier == "quick" else 6000):
+        groups = [[rnd.choice(atoms) for _ in range(rnd.randint(1, 3))] for _ in range(rnd.randint(1, 4))]
+        toks = []
+        for gi, g in enumerate(groups):
+            if gi:
+                toks.append("or")
+            for ai, a in enumerate(g):
+                if ai:
+                    toks.append("and")
+                toks += a
+        seqs.setdefault(tuple(toks), "well-formed or-of-ands (1..4 groups of 1..3 atoms)")
+    cases = []
+    datas = []
+    for a, b, c in itertools.product((True, False), repeat=3):
+        datas.append([["a", ["b", a]], ["b", ["b", b]], ["c", ["b", c]], ["and", ["b", True]], ["or", ["b", False]], ["contains", ["s", "x"]]])
+    datas.append([["a", ["o", [["b", ["b", True]]]]], ["b", ["n"]]])        # a.b defined; c, and, or undefined
+    for toks, why in seqs.items():
+        ds = datas if (why.startswith("well") or len(toks) <= 2) else rnd.sample(datas, 3)
+        for d in ds:
+            cases.append({"toks": list(toks), "data": d, "why": why})
+    for i, c in enumerate(cases):
+        c["id"] = i
+    dist = {"exhaustive": True, "token_alphabet": len(CTOK)}
+    for c in cases:
+        dist[c["why"]] = dist.get(c["why"], 0) + 1
+    return cases, dist
+
+
+def q_text(c):
+    return "{% if " + " ".join(c["toks"]) + " %}T{% else %}F{% endif %}"
+
+
+def q_request(c):
+    return {"id": c["id"], "kind": "render", "tpl": q_text(c), "data": c["data"]}
+
+
+def q_code(resp):
+    if "panic" in resp:
+        return None
+    if "parse_err" in resp:
+        return 2
+    if "ok" in resp:
+        return 1 if resp["ok"] == "T" else 0 if resp["ok"] == "F" else None
+    return 3
+
+
+def q_spec_check(c, resp):
+    """the property's own reading: groups of `and` joined by `or` — applied where every atom is a plain value or comparison"""
+    inp = {"template": q_text(c), "data": c["data"]}
+    code = q_code(resp)
+    if code is None:
+        return {"what": "parsing or evaluating a condition panicked / printed something else", "input": inp, "observed": resp}
+    toks = c["toks"]
+    if not c["why"].startswith("well") or any(t in ("and", "or", "contains") and (i == 0 or toks[i - 1] in ("and", "or")) and (i + 1 == len(toks) or toks[i + 1] in ("and", "or")) for i, t in enumerate(toks)):
+        return None
+    env = {k: v for k, v in c["data"]}
+
+    def val(t):
+        v = CTOK[t][0]
+        if v[0] == "lit":
+            return v[1]
+        x = env.get(v[1])
+        for i in v[2]:
+            x = dict((k, w) for k, w in x[1]).get(i[1][1]) if x is not None and x[0] == "o" else None
+        return x
+    try:
+        groups, cur, i = [], [], 0
+        res = False
+        gval = True
+        while i < len(toks):
+            if i + 2 < len(toks) + 0 and toks[i + 1] in ("==", "!=", "<>", "<", ">=", "contains") and i + 2 < len(toks):
+                a, b = val(toks[i]), val(toks[i + 2])
+                if a is None or b is None:
+                    return None        # an undefined name inside a comparison is an error of the comparison: left to the model
+                t = vmodel.compare(toks[i + 1], a, b)
+                i += 3
+            else:
+                x = val(toks[i])
+                t = x is not None and vmodel.truthy(x)
+                i += 1
+            gval = gval and t
+            if i < len(toks):
+                if toks[i] == "or":
+                    res = res or gval
+                    gval = True
+                i += 1
+        res = res or gval
+    except vmodel.Error:
+        return None
+    if code != (1 if res else 0):
+        return {"what": "a condition was not read as an `or` of `and` groups", "input": inp, "observed": resp, "expected": "T" if res else "F"}
+    return None
+
+
+def q_case_ir(c, resp):
+    return R("mkQ", [ctok_ir(t) for t in c["toks"]], obj_ir(c["data"]), Nv(q_code(resp)))
+
+
+COND = types.SimpleNamespace(PROP=PROP, SUITE="C06cond", HEADER="From LV Require Import Corr Eval CondParse Condcorr.\n", CHECKER="cond_check", gen=q_gen, request=q_request,
+                             spec_check=q_spec_check, nontrivial=lambda c, r: q_code(r) in (0, 1, 3), case_ir=q_case_ir, in_model=lambda c: True)
+MAIN = types.SimpleNamespace(**{k: v for k, v in globals().items() if k in ("PROP", "TARGETS", "HEADER", "CHECKER", "MODEL_HANDLES_PANIC", "TRUSTED", "RULE", "prepare", "gen", "request", "case_ir", "spec_check", "nontrivial")})
+
+
+def main(tier, seed):
+    import lv, lvcheck
+    run = lv.Run(PROP, tier, seed)
+    run.trusted = lv.COMMON_TRUSTED + TRUSTED
+    lv.standard_proof_phase(run, PROP, TARGETS, thorough=(tier == "thorough"))
+    a = lvcheck.generic_suite(run, MAIN, tier, seed)
+    b = lvcheck.generic_suite(run, COND, tier, seed)
+    run.coverage.update({"evaluations": a["evaluations"] + b["evaluations"], "distinct_nontrivial": a["nontrivial"] + b["nontrivial"], "rule": RULE,
+                         "samples": a["samples"][:2] + b["samples"][:1], "traces_validated_against_impl": a["evaluations"] + b["evaluations"],
+                         "disagreements_checked": a["disagreements"] + b["disagreements"], "exhaustive": True,
+                         "input_distribution": {"conditionals": a["dist"], "condition_parser": b["dist"]}})
+    return run.finish()
